@@ -11,7 +11,7 @@ CFG = dict(
     trusted=COMMON_TRUSTED + ["compiled Go (go build + run of the same source) as reference for defer/panic/recover",
                               "hand-written model Defer/Model.v of the unwinding mechanism of interp/run.go (runCfg, call/callBin/genBuiltinDeferWrapper defer branches, _recover, _panic, getFunc) and of Execute, tied by behavioural correspondence on generated programs evaluated inside Coq",
                               "printer of harness/c06.go (one AST rendered as Go source and as a Gallina term) and parser of the printed lines into events"],
-    level_text="Coq theorems about two executable models of defer/panic/recover over abstract programs (function tables with print/set/defer/panic/fault/call/recover/re-panic/return): Y transcribes yaegi's mechanism (per-frame deferred list and recovered field, Go-level recover/re-panic in runCfg, _recover reading the parent frame, argument slots kept by reference, Execute), G states Go's rules. C06_partial proves Y = G (trace, value seen by every recover, named results, final panic value) for all programs, unbounded call trees and defer stacks, on which none of the known-finding flags is raised, by simulation over the fuel; unbounded corollaries (LIFO / exactly once / after a deferred panic / arguments fixed / recover only direct / named results / top level) and six refutation witnesses. Y is tied to the source on every run by behavioural correspondence: every generated program is run by real yaegi in child processes (whole program, and Eval+Eval+Eval on one interpreter) and compared with Y inside Coq, also inside the defect regions; G is validated against the same source compiled by the Go toolchain.",
+    level_text="Coq theorems about two executable models of defer/panic/recover over abstract programs (function tables with print/set/defer/panic/fault/call/recover/re-panic/return): Y transcribes yaegi's mechanism (per-frame deferred list and recovered field, Go-level recover/re-panic in runCfg, _recover reading the parent frame, argument slots kept by reference, Execute), G states Go's rules. C06_partial proves Y = G (trace, value seen by every recover, named results, final panic value) for all programs, unbounded call trees and defer stacks, on which none of the known-finding flags is raised, by simulation over the fuel; unbounded corollaries (LIFO / exactly once / after a deferred panic / arguments fixed / recover only direct / named results / top level) and five refutation witnesses and the regression theorem of the repaired closure-lock finding. Y is tied to the source on every run by behavioural correspondence: every generated program is run by real yaegi in child processes (whole program, and Eval+Eval+Eval on one interpreter) and compared with Y inside Coq, also inside the defect regions; G is validated against the same source compiled by the Go toolchain.",
     level_note="Trusted: Coq kernel + vm_compute, no axioms; harness printer/parser; compiled Go as reference. The mechanism of interp/run.go is modelled by hand; the tie is behavioural (about 1,500 programs per quick run, 15,000+ per thorough run), not a translation of the source.",
     technique="Coq simulation proof by induction on fuel through open recursion + model/implementation correspondence evaluated in Coq on generated programs + compiled-Go reference",
     assumptions=["run-time faults are modelled as panics with an abstract class; the wording of their messages is canonicalised (classifyPanic)",
